@@ -160,6 +160,7 @@ class Fn:
         self.malias_pre = {}      # pre-pass: matrix window local -> root struct parameter
         self.sbuild = None        # struct-builder mode: the local struct (from mzd_t_malloc) whose fields are the result
         self.sfields = []
+        self.salias_len = {}
         self.salias = {}          # struct pointer local -> (base struct parameter, Lean term of the begin offset)
         self.salias_pre = {}      # pre-pass: struct pointer local -> base struct parameter
         self.wfields = set()      # pre-pass: (base struct, field) of array fields written through `X->f[i] = e`
@@ -386,6 +387,11 @@ class Fn:
             return '(%s %s)' % (self.tr.known_fns[fname], ' '.join(self.call_args(sig, n['inner'][1:])))
         raise CTransError('%s: unsupported expression kind %s' % (self.name, k))
 
+    def plen(self, y):
+        """length of a permutation window (`end - begin` of its mzp_init_window)"""
+        e_, b_ = self.salias_len[y]
+        return '(%s - %s)' % (self.value(e_), self.value(b_))
+
     def mroot(self, name):
         """(root struct parameter, Lean row offset, Lean word offset) of a matrix name (parameter or window local)"""
         if name in self.malias:
@@ -446,7 +452,7 @@ class Fn:
                 elif y in self.salias:
                     base, beg = self.salias[y]
                     if org[2] == 'length':
-                        out.append('%s__len' % V(y))
+                        out.append(self.plen(y))
                     elif org[2] == 'values':
                         if (base, 'values') in self.wfields:
                             mem = 'mem1_%s_values' % base
@@ -890,7 +896,7 @@ class Fn:
                         x = self.salias[x][0]
                     bv = '%s__begin' % V(nm)
                     out += '%slet %s : Int := %s\n' % (pad, bv, beg)
-                    out += '%slet %s__len : Int := (%s - %s)\n' % (pad, V(nm), self.value(c0['inner'][3]), self.value(c0['inner'][2]))
+                    self.salias_len[nm] = (c0['inner'][3], c0['inner'][2])     # evaluated where it is used
                     self.salias[nm] = (x, bv)
                     continue
                 if dk == 'p:?':
@@ -1203,7 +1209,7 @@ class Fn:
             else:
                 # the callee wrote the window's entries: positions [beg, beg + length)
                 out += '%slet %s : Int → Int := (fun i => if %s ≤ i ∧ i < %s + %s then %s (i - %s) else %s i)\n' % (
-                    pad, V(mem), beg, beg, V('%s__len' % y), t_, beg, V(mem))
+                    pad, V(mem), beg, beg, self.plen(y), t_, beg, V(mem))
         return out
 
     def sbuild_store(self, n, t):
